@@ -9,7 +9,7 @@ from __future__ import annotations
 
 import z3
 
-from ..sym import Assumed, EngineLimit, Sym, engine, fresh
+from ..sym import documented, Assumed, EngineLimit, Sym, engine, fresh
 from ..tensor import Tensor, dim_eq, lane
 from . import jtu as jtu_stub
 
@@ -28,11 +28,11 @@ def _slice(spec, tree, i, sizes):
             if isinstance(leaf, Tensor):
                 ax = spec if spec >= 0 else spec + leaf.ndim
                 if ax >= leaf.ndim:
-                    raise ValueError("vmap in_axes %d out of bounds for array of rank %d" % (spec, leaf.ndim))
+                    raise documented(ValueError("vmap in_axes %d out of bounds for array of rank %d" % (spec, leaf.ndim)))
                 sizes.append(leaf.shape[ax])
                 return lane(leaf, i, spec)
             if isinstance(leaf, Sym):
-                raise ValueError("vmap was requested to map its argument along axis %d, but its rank is only 0" % spec)
+                raise documented(ValueError("vmap was requested to map its argument along axis %d, but its rank is only 0" % spec))
             if leaf is None or not _is_arraylike(leaf):
                 return leaf  # non-array leaves (static objects) are passed through
             return leaf
@@ -40,13 +40,13 @@ def _slice(spec, tree, i, sizes):
         return jtu_stub.tree_map(f, tree)
     if isinstance(spec, (tuple, list)):
         if not isinstance(tree, (tuple, list)) or len(tree) != len(spec):
-            raise ValueError("vmap in_axes specification must be a tree prefix of the corresponding value, got %r for %r" % (spec, type(tree)))
+            raise documented(ValueError("vmap in_axes specification must be a tree prefix of the corresponding value, got %r for %r" % (spec, type(tree))))
         return type(tree)(_slice(s, t, i, sizes) for s, t in zip(spec, tree)) if not isinstance(tree, list) else [
             _slice(s, t, i, sizes) for s, t in zip(spec, tree)
         ]
     if isinstance(spec, dict):
         return {k: _slice(spec[k], tree[k], i, sizes) for k in tree}
-    raise TypeError("vmap in_axes must be an int, None, or a tuple/pytree of those, got %r" % (spec,))
+    raise documented(TypeError("vmap in_axes must be an int, None, or a tuple/pytree of those, got %r" % (spec,)))
 
 
 def _stack(tree, n, ivar):
@@ -75,28 +75,30 @@ def modular_vmap(f, in_axes=0, axis_size=None, axis_name=None, spmd_axis_name=No
         sizes = []
         if isinstance(in_axes, (tuple, list)):
             if len(in_axes) != len(args):
-                raise ValueError(
+                raise documented(ValueError(
                     "vmap in_axes specification must be a tree prefix of the corresponding value, got specification %r for %d arguments"
                     % (in_axes, len(args))
-                )
+                ))
             specs = list(in_axes)
         elif in_axes is None or isinstance(in_axes, int):
             specs = [in_axes] * len(args)
         else:
-            raise TypeError("vmap in_axes must be an int, None, or a tuple of entries corresponding to the positional arguments, got %r" % (in_axes,))
+            raise documented(TypeError("vmap in_axes must be an int, None, or a tuple of entries corresponding to the positional arguments, got %r" % (in_axes,)))
         lane_args = [_slice(s, a, Sym(ivar), sizes) for s, a in zip(specs, args)]
         n = axis_size
         if isinstance(n, Sym):
             n = n.e
         if n is None:
             if not sizes:
-                raise ValueError("vmap must have at least one non-None value in in_axes")
+                raise documented(ValueError("vmap must have at least one non-None value in in_axes"))
             n = sizes[0]
         for s in sizes:
             if not dim_eq(s, n):
                 if isinstance(s, int) and isinstance(n, int):
-                    raise ValueError("vmap got inconsistent sizes for array axes to be mapped")
+                    raise documented(ValueError("vmap got inconsistent sizes for array axes to be mapped"))
                 raise EngineLimit("cannot decide consistency of mapped axis sizes %s / %s" % (s, n))
+        if isinstance(n, Sym):
+            n = n.e
         nt = z3.IntVal(n) if isinstance(n, int) else n
         eng.assume(z3.And(ivar >= 0, ivar < nt))
         lanes = eng.extra.setdefault("lanes", [])
